@@ -69,15 +69,15 @@ fn monotone(r: &mut Rng, lat: bool, n: usize) -> Vec<P2> {
     let step = if lat { 0.5 } else { r.logu(0.1, 10.0) };
     let x0 = if lat { r.lattice(8, 1) } else { r.uniform(-50.0, 50.0) };
     let mut v = Vec::new();
-    // both chains share the extreme x positions; lower y in [-3,0), upper y in (0,3]
-    let span = (nl.max(nu + 1)) as f64;
+    // both chains share the extreme x positions (all abscissae are integer multiples of `step`: exact in lattice mode);
+    // lower y in [-3,0), upper y in (0,3]
     for i in 0..nl {
-        let x = x0 + step * (i as f64) * span / (nl - 1).max(1) as f64;
+        let x = x0 + step * (i * (nu + 1)) as f64;
         let y = if i == 0 || i + 1 == nl { 0.0 } else if lat { -((1 + r.below(6)) as f64) * 0.5 } else { -r.uniform(0.1, 3.0) * step };
         v.push(P2::new(x, y));
     }
     for j in 0..nu {
-        let x = x0 + step * span * ((nu - j) as f64) / (nu + 1) as f64;
+        let x = x0 + step * ((nu - j) * (nl - 1)) as f64;
         let y = if lat { ((1 + r.below(6)) as f64) * 0.5 } else { r.uniform(0.1, 3.0) * step };
         v.push(P2::new(x, y));
     }
